@@ -2777,6 +2777,28 @@ def _m_copysign(interp, x, y):
     return interp.native(math.copysign, [x, y], {})
 
 
+def _m_isnan(interp, x):
+    import math
+    if isinstance(x, SFloat):
+        return SBool(z3.fpIsNaN(x.t))
+    if isinstance(x, (SInt, SReal, SBool)):
+        return False
+    if isinstance(x, Sym):
+        raise Undecided("math.isnan of a symbolic value of unknown kind")
+    return interp.native(math.isnan, [x], {})
+
+
+def _m_isinf(interp, x):
+    import math
+    if isinstance(x, SFloat):
+        return SBool(z3.fpIsInf(x.t))
+    if isinstance(x, (SInt, SReal, SBool)):
+        return False
+    if isinstance(x, Sym):
+        raise Undecided("math.isinf of a symbolic value of unknown kind")
+    return interp.native(math.isinf, [x], {})
+
+
 import math as _math
 
 def _m_object_setattr(interp, obj, name, value):
@@ -2837,7 +2859,7 @@ DEFAULT_MODELS = {
     _itertools.product: _m_product, _itertools.zip_longest: _m_zip_longest,
     iter: _m_iter,
     object.__setattr__: _m_object_setattr,
-    _math.copysign: _m_copysign,
+    _math.copysign: _m_copysign, _math.isnan: _m_isnan, _math.isinf: _m_isinf,
     isinstance: _m_isinstance, len: _m_len, set: _m_set, list: _m_list, tuple: _m_tuple,
     reversed: _m_reversed, bool: _m_bool, int: _m_int, str: _m_str, range: _m_range,
     enumerate: _m_enumerate, zip: _m_zip, all: _m_all, any: _m_any, min: _m_minmax(True),
